@@ -60,7 +60,7 @@ func c02tokens() []c02tok {
 
 func nanValue() float64 { var z float64; return z / z }
 
-var c02msgs = []string{"m", "", " ", "\n", "\t\r\n", "a\nb", "a\n", "a\nb\n", "\nx", "\n\nx\n", "a\r\nb\r\n", "\r\nx", "\xff\xfe", strings.Repeat("0123456789", 200), "a\x00b", "\x1b[31mred", "  x  ", "<b>m</b>", "%d %s", `"quoted"`}
+var c02msgs = []string{"m", "", " ", "\n", "\t\r\n", "a\nb", "a\n", "a\nb\n", "\nx", "\n\nx\n", "a\r\nb\r\n", "\r\nx", "\xff\xfe", strings.Repeat("0123456789", 200), strings.Repeat("seventy KB ", 7000), "a\x00b", "\x1b[31mred", "  x  ", "<b>m</b>", "%d %s", `"quoted"`}
 
 type c02entry struct {
 	name  string
